@@ -389,7 +389,9 @@ func (d *drv) step(raw json.RawMessage) (common.T, int64, int64) {
 			return env.Module.OnChanOpenConfirm(ctx, ccvtypes.ProviderPortID, chanID(ch))
 		})
 		if r.OK() {
-			if c, ok := w.Channels[ccvtypes.ProviderPortID+"/"+chanID(ch)]; ok {
+			// IBC core moves a TRYOPEN end to OPEN; a CLOSED end is never re-opened (core would not even have
+			// called the callback for it; the callback itself does not look at the state of the channel end)
+			if c, ok := w.Channels[ccvtypes.ProviderPortID+"/"+chanID(ch)]; ok && c.State == channeltypes.TRYOPEN {
 				c.State = channeltypes.OPEN
 			}
 		}
